@@ -40,7 +40,9 @@ Qed.
 Lemma keys_in_true {K V} (s : list (K * V)) : keys_in (fun _ => True) s.
 Proof. unfold keys_in. apply Forall_forall. intros; exact I. Qed.
 
-(** * Step A: the command grouping of WriteRecords is harmless when the prevYear test never misfires *)
+(** * Step A: the command grouping of WriteRecords is harmless (consecutive rows of one year and
+    index are merged into one command, the last row's bytes win — which is what writing them one
+    by one does) *)
 Definition step (tfs recLen : Z) (s : list entry) (r : row) : list entry := apply_cmd s (cmd_of tfs recLen r).
 
 Lemma apply_same_key s c c' :
@@ -51,34 +53,31 @@ Proof.
   apply (ins_ins_same kcmp (fun _ => True) kcmp_ok); [exact I|apply keys_in_true].
 Qed.
 
-Lemma wr_loop_fold tfs recLen y0 : forall rows prevIndex cc s,
-  c_idx cc = prevIndex -> c_off cc = IndexToOffset prevIndex recLen ->
-  no_misfire tfs y0 prevIndex (c_year cc) rows = true ->
+Lemma wr_loop_fold tfs recLen : forall rows y0 prevIndex cc s,
+  c_idx cc = prevIndex -> c_off cc = IndexToOffset prevIndex recLen -> c_year cc = y0 ->
   fold_left apply_cmd (wr_loop tfs recLen y0 prevIndex cc rows) s
   = fold_left (step tfs recLen) rows (apply_cmd s cc).
 Proof.
-  induction rows as [|r rest IH]; intros prevIndex cc s Hi Ho Hg; [reflexivity|].
-  cbn [wr_loop no_misfire] in *.
+  induction rows as [|r rest IH]; intros y0 prevIndex cc s Hi Ho Hy; [reflexivity|].
+  cbn [wr_loop] in *.
   destruct ((TimeToIndex tfs (fst r) =? prevIndex) && (year_of (fst r) =? y0)) eqn:E.
   - apply andb_prop in E as [E1 E2]. apply Z.eqb_eq in E1. apply Z.eqb_eq in E2.
-    apply andb_prop in Hg as [Hc Hg]. apply Z.eqb_eq in Hc.
-    rewrite (IH prevIndex (set_data cc (snd r)) s); [|exact Hi|exact Ho|exact Hg].
+    rewrite (IH y0 prevIndex (set_data cc (snd r)) s); [|exact Hi|exact Ho|exact Hy].
     cbn [fold_left]. f_equal. unfold step.
     rewrite apply_same_key.
-    + unfold apply_cmd, cmd_of, set_data; cbn. rewrite E1, E2, <- Hc, Ho, Hi. reflexivity.
+    + unfold apply_cmd, cmd_of, set_data; cbn. rewrite E1, E2, <- Hy, Ho, Hi. reflexivity.
     + cbn. congruence.
     + cbn. rewrite E1. exact Ho.
   - cbn [fold_left].
-    rewrite (IH (TimeToIndex tfs (fst r)) (cmd_of tfs recLen r) (apply_cmd s cc));
-      [reflexivity|reflexivity|reflexivity|exact Hg].
+    rewrite (IH (year_of (fst r)) (TimeToIndex tfs (fst r)) (cmd_of tfs recLen r) (apply_cmd s cc));
+      reflexivity.
 Qed.
 
 Lemma write_records_fold tfs recLen rows s :
-  request_ok tfs rows = true ->
   fold_left apply_cmd (write_records tfs recLen rows) s = fold_left (step tfs recLen) rows s.
 Proof.
-  destruct rows as [|r rest]; [reflexivity|]. cbn [write_records request_ok]. intros Hg.
-  rewrite wr_loop_fold; [reflexivity|reflexivity|reflexivity|exact Hg].
+  destruct rows as [|r rest]; [reflexivity|]. cbn [write_records].
+  rewrite wr_loop_fold; reflexivity.
 Qed.
 
 (** * Step B: row-wise application refines insertion into the interval map *)
@@ -498,13 +497,12 @@ Qed.
 Definition flat (reqs : list (list row)) : list row := concat reqs.
 
 Lemma data_fold tfs recLen : forall reqs st,
-  forallb (fun rows => request_ok tfs rows) reqs = true ->
   s_data (fold_left (write_fixed tfs recLen) reqs st)
   = fold_left (fun s rows => fold_left (step tfs recLen) rows s) reqs (s_data st).
 Proof.
-  induction reqs as [|rq rest IH]; intros st Hg; [reflexivity|].
-  cbn in Hg. apply andb_prop in Hg as [H1 H2]. cbn [fold_left]. rewrite IH by assumption.
-  cbn [write_fixed s_data]. rewrite write_records_fold by assumption. reflexivity.
+  induction reqs as [|rq rest IH]; intros st; [reflexivity|].
+  cbn [fold_left]. rewrite IH.
+  cbn [write_fixed s_data]. rewrite write_records_fold. reflexivity.
 Qed.
 
 Lemma years_of_fold tfs recLen : forall reqs st x,
@@ -534,7 +532,6 @@ Qed.
 Lemma guard_parts tfs recLen reqs : guard_C08 tfs recLen reqs = true ->
   valid_tf tfs = true /\ valid_reclen recLen = true /\ queryable_tfs tfs = tfs
   /\ forallb (fun rows => rows_valid rows) reqs = true
-  /\ forallb (fun rows => request_ok tfs rows) reqs = true
   /\ forallb (fun rows => no_index0 tfs rows) reqs = true.
 Proof.
   unfold guard_C08. rewrite !andb_true_iff. intros [[[H1 H2] H3] H4]. apply Z.eqb_eq in H3.
@@ -577,13 +574,13 @@ Theorem write_read_lww tfs recLen reqs :
   guard_C08 tfs recLen reqs = true -> has_row reqs ->
   query_bucket_all tfs recLen (fold_left (write_fixed tfs recLen) reqs empty_store) = Ok (lww tfs reqs).
 Proof.
-  intros Hg Hrow. destruct (guard_parts tfs recLen reqs Hg) as [Htf [Hrl [Hq [Hv [Hok Hz]]]]].
+  intros Hg Hrow. destruct (guard_parts tfs recLen reqs Hg) as [Htf [Hrl [Hq [Hv Hz]]]].
   unfold query_bucket_all. rewrite Hq, Z.eqb_refl.
   set (st := fold_left (write_fixed tfs recLen) reqs empty_store).
   assert (Hyears : forall x, In x (s_years st) <-> exists rows r, In rows reqs /\ In r rows /\ x = year_of (fst r)).
   { intros x. unfold st. rewrite years_of_fold. cbn. intuition. }
   assert (Hnd : NoDup (s_years st)) by (apply years_NoDup; constructor).
-  pose proof (data_fold tfs recLen reqs empty_store Hok) as Hdata. fold st in Hdata. cbn [empty_store s_data] in Hdata.
+  pose proof (data_fold tfs recLen reqs empty_store) as Hdata. fold st in Hdata. cbn [empty_store s_data] in Hdata.
   destruct (history_inv tfs recLen reqs [] (s_years st) Htf Hrl Hv Hz) with (s' := s_data st)
     as [Hso [Hl [Hyi Ha]]].
   { intros rows r H1 H2. apply Hyears. exists rows, r. repeat split; assumption. }
